@@ -39,6 +39,7 @@ def split_ops(trace):
 class Matcher:
     def __init__(self, scenario, result, coarse=False):
         self.coarse = coarse
+        self.binder = None
         self.exp_by_op = {}
         self.sc = scenario
         self.res = result
@@ -316,9 +317,14 @@ class Matcher:
             self.stats["cb_matched"] += 1
             if placed["g"] == "guards":
                 self.stats["guards_seen"] += 1
-                self.check_bound(ctx, r, placed, guard=True)
+                if self.binder is not None:
+                    self.binder(self, ctx, r, placed)
+                else:
+                    self.check_bound(ctx, r, placed, guard=True)
                 continue
-            if self.coarse:
+            if self.binder is not None:
+                self.binder(self, ctx, r, placed)
+            elif self.coarse:
                 b = r["b"]
                 if "event" in b and canon(b["event"]) != canon({"$e": placed["ev"]}):
                     self.add("bound.event", n, cb=r["c"], expected=placed["ev"], actual=b["event"])
@@ -452,7 +458,8 @@ class Matcher:
         ev, src, dst, view = item["ev"], item["src"], item["dst"], item["view"]
         exp = {"event": {"$e": ev}, "source": {"$s": src}, "target": {"$s": dst},
                "state": {"$s": view}, "machine": {"$o": [ctx["tag"], "machine"]},
-               "model": {"$o": [ctx["tag"], "model"]}, "event_data": "$event_data"}
+               "model": {"$o": [ctx["tag"], "model"]},
+               "event_data": {"$ed": sorted(k for k in (item.get("kw") or {}) if k not in BUILTINS)}}
         for k in ("event", "source", "target", "state", "machine", "model", "event_data"):
             if k in b and canon(b[k]) != canon(exp[k]):
                 if k == "model" and b[k] == {"$r": "Model"}:
